@@ -1,7 +1,6 @@
 package props
 
 import (
-	"encoding/json"
 	"fmt"
 	"strings"
 
@@ -51,8 +50,7 @@ func setString(s []string) string { return strings.Join(s, ",") }
 func c04Views(prop string, cfg RouterCfg, hist []Op, r *Router, t *ref.Table, c *explore.Child, outc map[string]struct{}) {
 	hs := opsStrings(hist)
 	rep := func(clause, class, probe, obs, exp string, q hv.Req, kind string) {
-		c.Viols = append(c.Viols, explore.Violation{Property: prop, Clause: clause, Class: class, Config: cfg.String(), History: hs, Probe: probe, Observed: obs, Expected: exp,
-			Replay: mustJSON(histReplay{Kind: kind, Router: cfg, Ops: hist, Req: q})})
+		c.Viols = append(c.Viols, explore.Violation{Property: prop, Clause: clause, Class: class, Config: cfg.String(), History: hs, Probe: probe, Observed: obs, Expected: exp})
 	}
 	routes := RoutesOf(r)
 	c.Probes++
@@ -138,51 +136,13 @@ func c04Views(prop string, cfg RouterCfg, hist []Op, r *Router, t *ref.Table, c 
 	}
 }
 
-func replayC04(raw json.RawMessage) (string, error) {
-	var h histReplay
-	if err := json.Unmarshal(raw, &h); err != nil {
-		return "", err
-	}
-	switch h.Kind {
-	case "routes", "op", "dispatch", "frame":
-		return replayHist(raw)
-	}
-	r, _, perr := buildHistory(h.Router, h.Ops)
-	if perr != "" {
-		return perr, nil
-	}
-	if h.Kind == "routes1" {
-		return RoutesString(RoutesOf(r)), nil
-	}
-	o := hv.Serve(r, h.Req)
-	if o.Paniced {
-		return fmt.Sprintf("panic: %v", o.Panic), nil
-	}
-	switch h.Kind {
-	case "node-allow":
-		return setString(ref.ParseAllow(o.Allow)), nil
-	case "node-methods":
-		return setString(ref.ParseAllow(strings.Join(o.Methods, ","))), nil
-	case "allow-header":
-		hdr := ""
-		if o.Header != nil {
-			hdr = o.Header.Get("Allow")
-		}
-		if h.Req.Path == "*" {
-			return hdr, nil
-		}
-		return setString(ref.ParseAllow(hdr)), nil
-	}
-	return "", fmt.Errorf("unknown replay kind %q", h.Kind)
-}
-
 var c04Spec = &histSpec{Prop: "C04", Alphabet: c04Alphabet, Check: func(cfg RouterCfg, hist []Op, r *Router, t *ref.Table, c *explore.Child, outc map[string]struct{}) {
 	c04Views("C04", cfg, hist, r, t, c, outc)
 }}
 
 func init() {
 	c04Spec.register("c04/expand")
-	explore.Register(&explore.Check{ID: "C04", Replay: replayC04, Run: func(rc *explore.RunCtx) {
+	explore.Register(&explore.Check{ID: "C04", Run: func(rc *explore.RunCtx) {
 		depth := 3
 		if !rc.Quick() {
 			depth = 5
